@@ -2,7 +2,7 @@
 import ast
 import math
 
-from ..astutil import dotted, method_call
+from ..astutil import dotted, effective, method_call
 from ..cfg import cfg_of, fact_key, norm, walk_own
 from ..consteval import Scope, fold, fold_in
 from ..mutate import B, M
@@ -198,7 +198,7 @@ def check(ctx):
             norm(d[0].value.value if isinstance(d[0].value, ast.DictComp) else d[0].value.elt).startswith(('copy.copy(', 'copy.deepcopy('))
     ctx.inst('R4', ss, 'scale-only-copies', ok, '.scale is applied only to elements of containers built with copy.copy/deepcopy')
     sc_ = P.method('scale')
-    body = [s for s in sc_.node.body if not (isinstance(s, ast.Expr) and isinstance(s.value, ast.Constant))]
+    body = effective(sc_.node.body)
     ok = len(body) == 1 and isinstance(body[0], ast.Assign) and norm(body[0].targets[0]) == 'self._t_vec' and canon(body[0].value) == canon(ast.parse('self._t_vec * %s' % sc_.params[1], mode='eval').body)
     ctx.inst('R4', sc_, 'scale-rebinds', ok, 'Pose.scale must rebind _t_vec (x = x * s); an in-place *= would write through the shallow copy into the caller\'s pose; body %s' % [norm(b) for b in body])
 
